@@ -143,11 +143,13 @@ func (s *Server) handleConn(ctx context.Context, conn net.Conn) error {
 			return nil
 		case *pgproto3.Query:
 			start := time.Now()
+			// The decision (and its cache key) must be taken on exactly the text that
+			// is forwarded below; trimQuery only shortens the audit log line.
 			trimmed := trimQuery(m.String)
-			key := cacheKey(trimmed)
+			key := cacheKey(m.String)
 			decision, hit := cache.get(key)
 			if !hit {
-				allowed, reason, topics, showTopics := authorizeQuery(acl, trimmed)
+				allowed, reason, topics, showTopics := authorizeQuery(acl, m.String)
 				decision = cacheDecision{
 					created:    time.Now(),
 					allowed:    allowed,
@@ -265,20 +267,20 @@ func sendError(backend *pgproto3.Backend, message string) error {
 	return backend.Send(&pgproto3.ReadyForQuery{TxStatus: 'I'})
 }
 
+// authorizeQuery decides on the query text exactly as the upstream will see it:
+// it parses the same string that is forwarded (Parse trims white space and one
+// trailing ';' itself), so the topics checked are the topics the upstream reads.
 func authorizeQuery(acl ACL, query string) (bool, string, []string, bool) {
-	trimmed := strings.TrimSpace(strings.TrimSuffix(query, ";"))
-	if trimmed == "" {
-		return true, "", nil, false
-	}
-	lower := strings.ToLower(trimmed)
-	if strings.HasPrefix(lower, "set ") || strings.HasPrefix(lower, "reset ") {
-		return true, "", nil, false
-	}
 	if len(acl.Allow) == 0 && len(acl.Deny) == 0 {
 		return true, "", nil, false
 	}
-	parsed, err := kafsql.Parse(trimmed)
+	parsed, err := kafsql.Parse(query)
 	if err != nil {
+		// The upstream cannot parse this text either, so it reads no topic for it.
+		// Session commands pass through; anything else is refused.
+		if isSessionCommand(query) {
+			return true, "", nil, false
+		}
 		return false, "proxy cannot authorize query", nil, false
 	}
 	topics, showTopics := queryTopics(parsed)
@@ -315,6 +317,18 @@ func queryTopics(parsed kafsql.Query) ([]string, bool) {
 	}
 }
 
+// isSessionCommand reports whether the text is empty or a SET / RESET command.
+func isSessionCommand(query string) bool {
+	trimmed := strings.TrimSpace(strings.TrimSuffix(strings.TrimSpace(query), ";"))
+	if trimmed == "" {
+		return true
+	}
+	lower := strings.ToLower(trimmed)
+	return strings.HasPrefix(lower, "set ") || strings.HasPrefix(lower, "reset ")
+}
+
+// trimQuery shortens a query for log lines. Its result must not be used for
+// authorization or as a cache key: the text beyond 512 bytes is dropped.
 func trimQuery(query string) string {
 	trimmed := strings.TrimSpace(query)
 	if len(trimmed) > 512 {
